@@ -47,6 +47,7 @@ pub fn prop() -> Prop {
         independent: &["hostile dictionary from the Python reference (ref/hostile/*.json)"],
         ref_sample: |_| 0,
         required_probes: &["type_Identifier", "type_SigningShare", "type_VerifyingShare", "type_VerifyingKey", "type_SigningKey", "type_Nonce", "type_NonceCommitment", "type_CoefficientCommitment", "type_Signature", "type_SignatureShare", "type_Delta", "type_Sigma", "type_Randomizer", "composite_SecretShare", "composite_KeyPackage", "composite_PublicKeyPackage", "composite_PublicKeyPackage_pre3", "composite_SigningNonces", "composite_SigningCommitments", "composite_SigningPackage", "composite_dkg_round1_Package", "composite_dkg_round1_SecretPackage", "composite_dkg_round2_Package", "composite_dkg_round2_SecretPackage", "version_fault", "ciphersuite_fault_bin", "ciphersuite_fault_json", "cross_suite_payload", "hostile_elements", "hostile_scalars", "zero_identifier_rejected", "zero_signing_key_rejected", "identity_rejected"],
+        prepare: None,
     }
 }
 
